@@ -16,6 +16,12 @@ PLAN = {   # seed -> [(property, extra args)]
     "C10-m2": [("C10", ["--only", "k_sd_round"])],
     "C12-m1": [("C12", ["--only", "k_span_checked_mul"])],
     "C12-m2": [("C12", ["--only", "k_sd_new"])],
+    "C14-m1": [("C14", ["--engine", "K"])],
+    "C14-m2": [("C14", ["--engine", "M", "--only", "k_posix_us_prev"])],
+    "C17-m1": [("C17", [])],
+    "C17-m2": [("C17", ["--only", "i64"])],
+    "C05-m1": [("C05", ["--only", "nth_weekday_of_month"])],
+    "C05-m2": [("C05", ["--only", "k_ifrom_doy_no_leap"])],
 }
 seeds = sys.argv[1:] or sorted(PLAN)
 rows = []
